@@ -128,8 +128,9 @@ func (sc *StateCache) commit(bc *BlockCache) {
 	sc.hits += bcHits
 	sc.miss += bcMiss
 
-	// Clear the pre-commit cache
+	// Clear the pre-commit cache; from now on the block's own lookups start at its own hash
 	bc.cache = make(map[string]valueNode)
+	bc.committed = true
 	logging.Logger.Debug("statecache - commit",
 		zap.String("block", bc.blockHash),
 		zap.Int64("bc_hits", bcHits),
